@@ -11,7 +11,7 @@ L3  RegistryMon.tla: RequestAllowed for every request, ViewFaithful for every AP
 import json
 import os
 
-from vlib import Infra, go_test, l1, log, monitor, read_ndjson, report, trace_of
+from vlib import Infra, go_test, l1, log, monitor, read_ndjson, report, trace_any, trace_of
 
 FAKE = {"FakeStatus", "FakeState", "FakeSubjectHeader", "FakeDigestHeader"}
 
@@ -58,7 +58,7 @@ def run(ctx, replay=None):
         report(ctx, "remote-history", v["inv"], scen[v["t"]], window,
                what="%s failed at event %d of history %d: %s" % (v["inv"], v["i"], v["t"], json.dumps(window[0])[:200]))
     mid = sorted(scen)[len(scen) // 2] if scen else 0
-    sample = [{a: b for a, b in x.items() if a != "state"} for x in trace_of(summ["files"][0], mid, 12)]
+    sample = [{a: b for a, b in x.items() if a != "state"} for x in trace_any(summ["files"], mid, 12)]
     return {
         "evaluations": summ["events"], "distinct_nontrivial": summ["scenarios"],
         "rule": "one evaluation = one recorded event (API call, HTTP exchange, API result); distinct_nontrivial counts API "
